@@ -66,6 +66,12 @@ def main():
                  "   in /repo's current source (gen/Sites_gen.v is regenerated on every run by tools/sites.py) *)\n"
                  "From FG.gen Require Import Sites_gen.\nTheorem %s_sites_recognised : forallb (fun b => b) sites_%s = true.\nProof. vm_compute. reflexivity. Qed.\n" % (pid, pid))
     text = "(** %s *)\n%s\n\n%s\n%s%s" % (intro, header, "\n".join(body), "".join("Print Assumptions %s_%s.\n" % (pid, n) for n in pa), sites)
+    if os.environ.get("MKPROPS_APPEND"):
+        old = open(os.path.join(COQ, "properties", pid + ".v")).read()
+        mark = "\n(* ---- appended by tools/mkprops.py: " + intro.split(":")[0] + " ---- *)\n"
+        if mark in old:
+            old = old[:old.index(mark)]
+        text = old.rstrip("\n") + "\n" + mark + text
     open(os.path.join(COQ, "properties", pid + ".v"), "w").write(text)
     ok, out = compiles(text)
     print(pid, "ok" if ok else "FAILED", len(names), "theorems")
